@@ -583,6 +583,12 @@ theorem mvp60_lower_bound (app : App) (ctx : Model.Context) (eu wu fuel : Nat) :
       ((Model.Mvp60.run app ctx eu wu fuel).final.executed : Int) ≤ eu * (Model.Mvp60.run app ctx eu wu fuel).final.cycles) :=
   Proofs.Mvp60.run_executed_le app ctx eu wu fuel
 
+/-- **what the tie evaluates is the model the theorems are about.**  The driver evaluates `Model.Mvp60.runFast` (idle
+stretches — all units waiting for a counter, or dead-locked — are skipped in one step); it is the tick-by-tick run. -/
+theorem mvp60_fast_run_is_run (app : App) (ctx : Model.Context) (eu wu fuel : Nat) :
+    Model.Mvp60.runFast app ctx eu wu fuel = Model.Mvp60.run app ctx eu wu fuel :=
+  Proofs.Mvp60Fast.runFast_eq_run app ctx eu wu fuel
+
 /-- Non-vacuity: a run that ends normally (`Clean`) with instructions executed — the two-unit run of
 `Proofs.Mvp60Witness.dropApp` ends `offEnd` after 319 cycles with one instruction executed -/
 example : Proofs.Mvp60.Clean (Model.Mvp60.run Proofs.Mvp60Witness.dropApp (Proofs.Mvp60Witness.ctxS0 64) 2 2 1000).halt ∧
